@@ -1,6 +1,8 @@
 //! Call vocabulary: one function per specification action, executed on the
 //! real crates. Every call returns a projected outcome (see out.rs).
 
+#[cfg(feature = "builder")]
+pub mod build;
 pub mod common;
 pub mod elf;
 pub mod header;
@@ -59,6 +61,14 @@ pub struct Ctx {
     pub hdr: Option<multiboot2_header::Multiboot2Header<'static>>,
     pub its: HashMap<u64, It>,
     pub ext: Option<(usize, usize)>,
+    #[cfg(feature = "builder")]
+    pub bld: Option<multiboot2::Builder>,
+    #[cfg(feature = "builder")]
+    pub hbld: Option<multiboot2_header::Builder>,
+    #[cfg(feature = "builder")]
+    pub built: Option<Box<multiboot2::DynSizedStructure<multiboot2::BootInformationHeader>>>,
+    #[cfg(feature = "builder")]
+    pub hbuilt: Option<Box<multiboot2::DynSizedStructure<multiboot2_header::Multiboot2BasicHeader>>>,
 }
 
 impl Ctx {
@@ -70,6 +80,14 @@ impl Ctx {
             hdr: None,
             its: HashMap::new(),
             ext: None,
+            #[cfg(feature = "builder")]
+            bld: None,
+            #[cfg(feature = "builder")]
+            hbld: None,
+            #[cfg(feature = "builder")]
+            built: None,
+            #[cfg(feature = "builder")]
+            hbuilt: None,
         }
     }
 
@@ -150,6 +168,10 @@ fn dispatch(ctx: &mut Ctx, op: &str, call: &Value) -> Value {
         return v;
     }
     if let Some(v) = header::dispatch(ctx, op, call) {
+        return v;
+    }
+    #[cfg(feature = "builder")]
+    if let Some(v) = build::dispatch(ctx, op, call) {
         return v;
     }
     out::unsupported()
